@@ -1208,8 +1208,10 @@ class NDCube(NDCubeBase):
                     operation=operation, operation_ignores_mask=operation_ignores_mask,
                     handle_mask=handle_mask, new_unit=new_unit, **kwargs)
 
-        # Resample WCS
-        new_wcs = ResampledLowLevelWCS(self.wcs.low_level_wcs, bin_shape[::-1])
+        # Resample WCS.  The centre of each new pixel lies at the centre of the block
+        # of original pixels it aggregates, i.e. (bin_shape - 1) / 2 on the original grid.
+        offset = (bin_shape - 1) / 2
+        new_wcs = ResampledLowLevelWCS(self.wcs.low_level_wcs, bin_shape[::-1], offset=offset[::-1])
 
         # Reform NDCube.
         new_cube = type(self)(
@@ -1223,7 +1225,7 @@ class NDCube(NDCubeBase):
         new_cube._global_coords = self._global_coords
         # Reconstitute extra coords
         if not self.extra_coords.is_empty:
-            new_cube._extra_coords = self.extra_coords.resample(bin_shape, ndcube=new_cube)
+            new_cube._extra_coords = self.extra_coords.resample(bin_shape, offset=offset, ndcube=new_cube)
 
         return new_cube
 
